@@ -10,6 +10,8 @@ import random
 
 STEP_KINDS = ["run"] * 8 + ["nomatch", "ambig"]
 PANICS = ["panic_string", "panic_str", "panic_custom"]
+# `_sync`: the hook / step function panics in its own body, before returning its future
+PANICS_CB = PANICS + PANICS + ["panic_string_sync", "panic_custom_sync"]
 PIPELINES = ["sn", "lt", "tee", "orl", "orr", "snb", "fos:sn", "rep:sn", "fos:rep:sn", "fos:lt",
              "rep:tee", "fos:tee", "rep:lt", "fos:orl"]
 
@@ -154,12 +156,12 @@ def gen_case(rng, cid, profile="mixed"):
                 if rng.random() < fail_bias * 0.3:
                     o["world"] = rng.choice(["err"] + PANICS)
                 if cfg["before"] and rng.random() < fail_bias * 0.5:
-                    o["before"] = rng.choice(PANICS)
+                    o["before"] = rng.choice(PANICS_CB)
                 if cfg["after"] and rng.random() < fail_bias * 0.5:
-                    o["after"] = rng.choice(PANICS)
+                    o["after"] = rng.choice(PANICS_CB)
                 for st in steps:
                     if st["kind"] == "run" and rng.random() < fail_bias:
-                        o["steps"][st["label"]] = rng.choice(PANICS)
+                        o["steps"][st["label"]] = rng.choice(PANICS_CB)
                 atts.append(o)
             outcomes[s["name"]] = atts
 
